@@ -300,6 +300,7 @@ impl Gen {
       retries: r.pick(&[0, 1, 2, 5]),
       magic: r.below(65536) as u16,
       offset: 0,
+      mm: 0,
     };
     if matches!(p, Profile::File | Profile::BadFile) {
       cfg.backend = 2;
@@ -311,6 +312,10 @@ impl Gen {
     // a file-backed arena may start at an offset inside its file
     if cfg.backend == 2 && r.chance(if p == Profile::Trunc { 50 } else { 30 }) {
       cfg.offset = r.pick(&[64u64, 4096, 4160, 8192]); // multiples of the largest type alignment used (a mapping offset that is not one makes every typed allocation misaligned)
+    }
+    // mapping options that must not change any answer (lock the header pages, populate, MAP_STACK)
+    if cfg.backend != 0 && r.chance(25) {
+      cfg.mm = r.pick(&[1u8, 1, 2, 3, 4, 7]);
     }
     let prefix = cfg.prefix();
     let base: u32 = if p == Profile::Buf {
@@ -795,7 +800,8 @@ impl Gen {
         let ty = self.rng.pick(&INTS);
         let ord = self.rng.pick(&["be", "le", "ne"]);
         let v = self.int_val(ty, false);
-        self.emit(format!("put {id} {ty} {ord} {v}"));
+        let op = if !matches!(ty, "u8" | "i8") && self.rng.chance(20) { "wput" } else { "put" };
+        self.emit(format!("{op} {id} {ty} {ord} {v}"));
       }
       1 => {
         let ty = self.rng.pick(&INTS);
@@ -806,7 +812,7 @@ impl Gen {
         let ty = self.rng.pick(&VARS);
         let v = self.int_val(ty, true);
         // the panicking twin where it cannot panic, or where a panic is allowed
-        let op = if (allow_panic || room >= 19) && self.rng.chance(25) { "put_varu" } else { "put_var" };
+        let op = if (allow_panic || room >= 19) && self.rng.chance(25) { "put_varu" } else if self.rng.chance(20) { "wput_var" } else { "put_var" };
         self.emit(format!("{op} {id} {ty} {v}"));
       }
       3 => {
